@@ -269,8 +269,8 @@ partial def toXNode (st : St) (id : Nat) : Option Serialize.XNode × St :=
         | some x => (acc.1 ++ [x], s', acc.2.2)
         | none => (acc.1, s', false)) ([], st1, true)
       if !ok then (none, st2) else
-      (some { name := strOf e.name, attrs := i.attrs.map fun (k, v) => (k, pyStr v),
-              text := if i.value == .none then none else some (pyStr i.value), children := kids }, st2)
+      (some { name := (strOf e.name).toList, attrs := i.attrs.map fun (k, v) => (k.toList, (pyStr v).toList),
+              text := if i.value == .none then none else some (pyStr i.value).toList, children := kids }, st2)
 
 partial def levelOf (st : St) (id : Nat) (fuel : Nat := 10000) : Nat :=
   match fuel, st.insts[id]? with
